@@ -177,3 +177,72 @@ func VerifH_C05_reserialize() {
 	vAssert(g.incr == f.incr && g.ack == f.ack && g.ping == f.ping, "C05.reser.scalars")
 	vCover("C05.reser.headers-prio", f.typ == 1 && f.hasPrio && len(f.frag) == 2)
 }
+
+// A HEADERS frame whose header block fragment is longer than one frame may
+// be: fragment lengths at the multiples of 16384 and one above (quick), also
+// one below and 49152 (thorough), with and without priority fields and END_STREAM. On
+// the wire (reference frame parser): HEADERS first, then CONTINUATION frames
+// directly after it on the same stream, no frame above 16384 octets,
+// END_HEADERS on the last frame and only there, END_STREAM and the priority
+// fields on the HEADERS frame only, and the fragments concatenate to the block.
+//
+//verif:harness prop=C05,C18 unwind=64 timeout=600
+func VerifH_C05_split() {
+	n := [7]int{16384, 16385, 32768, 32769, 16383, 32767, 49152}[vRange(0, vPick(3, 6))]
+	prio := vBool()
+	end := vBool()
+	blk := make([]byte, n)
+	for i := range blk {
+		blk[i] = byte(i*7 + 1)
+	}
+	fr := AcquireFrameHeader()
+	fr.SetStream(5)
+	h := AcquireFrame(FrameHeaders).(*Headers)
+	h.SetHeaders(blk)
+	h.SetEndHeaders(true)
+	h.SetEndStream(end)
+	if prio {
+		// as a frame that was read with priority fields and is written again
+		h.priority = true
+		h.SetStream(3)
+		h.SetWeight(9)
+	}
+	fr.SetBody(h)
+	bw, w := vNewWriter()
+	_, err := fr.WriteTo(bw)
+	vAssert(err == nil && bw.Flush() == nil, "C05.split.written")
+	b := w.out
+	frames, got, endHeaders := 0, 0, 0
+	for len(b) > 0 {
+		f, used, st := refParseFrame(b, 0)
+		vAssert(st == refFrOK, "C05.split.parses")
+		if st != refFrOK {
+			return
+		}
+		vAssert(f.length <= 16384, "C05.split.frame-size")
+		vAssert(f.stream == 5, "C05.split.stream")
+		if frames == 0 {
+			vAssert(f.typ == 0x1, "C05.split.headers-first")
+			vAssert((f.flags&0x1 != 0) == end, "C05.split.end-stream-on-headers")
+			vAssert(f.hasPrio == prio && (!prio || (f.dep == 3 && f.weight == 9)), "C05.split.priority-fields")
+		} else {
+			vAssert(f.typ == 0x9, "C05.split.then-continuation")
+			vAssert(f.flags&^0x4 == 0, "C05.split.continuation-flags")
+		}
+		vAssert(endHeaders == 0, "C05.split.nothing-after-end-headers")
+		if f.flags&0x4 != 0 {
+			endHeaders++
+		}
+		for i := range f.frag {
+			if f.frag[i] != byte((got+i)*7+1) {
+				vAssert(false, "C05.split.fragments-concatenate-to-the-block")
+			}
+		}
+		got += len(f.frag)
+		frames++
+		b = b[used:]
+	}
+	vAssert(endHeaders == 1, "C05.split.end-headers-exactly-once")
+	vAssert(got == n, "C05.split.whole-block")
+	vCover("C05.split.three-frames", frames == 3 && n == 32769)
+}
